@@ -6,7 +6,7 @@ package router
 //verif:stub github.com/tucats/ego/internal/cli/settings.GetInt = c24GetInt
 //verif:bound histories of 4 (quick) / 5 (thorough) login attempts over users {u,v}, each with an arbitrary right/wrong password outcome, the background prune task run before one arbitrary attempt (or never); configured limit arbitrary in 0..2; lockout duration the 15-minute default; the clock is arbitrary and non-decreasing with one-second resolution; it advances between operations (each CheckRateLimit/RecordFailure/RecordSuccess/prune call is instantaneous)
 //verif:assume the login sequence of router.Authenticate is: CheckRateLimit(user) > 0 => refuse without validating; else validate, then RecordFailure or RecordSuccess (mirrored by the harness driver c24Attempt)
-//verif:outside sub-second clock behaviour; what happens after a lockout has expired (the statement is silent); configured (non-default) lockout durations
+//verif:outside sub-second clock behaviour; the very instant a lockout runs out; configured (non-default) lockout durations
 
 import (
 	"time"
@@ -89,7 +89,7 @@ func VerifC24_lockoutHistory() {
 		user := users[sym.Choice("user", 2)]
 		r := ref[user]
 		now := c24Tick()
-		before, after := now, now
+		after := now
 		wait := CheckRateLimit(user)
 		refused := wait > 0
 
@@ -98,11 +98,6 @@ func VerifC24_lockoutHistory() {
 		}
 		if r.locked && after.Before(r.lockLo) {
 			sym.Assert(refused, "an attempt inside the lockout period was not refused")
-		}
-		if r.locked && !before.Before(r.lockLo) {
-			// the lockout has (possibly) run out: the statement says nothing about
-			// what follows until a successful login resets the account
-			r.forgotten = true
 		}
 		if !r.forgotten && !r.locked && r.consecutive < c24Limit && c24Limit > 0 {
 			sym.Assert(!refused, "an attempt was refused although fewer than the limit of consecutive failures were recorded")
@@ -118,8 +113,13 @@ func VerifC24_lockoutHistory() {
 		t0, t1 := now, now
 		RecordFailure(0, user)
 		r.consecutive++
-		if c24Limit > 0 && r.consecutive >= c24Limit && !r.forgotten && !r.locked {
-			r.locked, r.lockLo, r.lockHi = true, t0.Add(c24D), t1.Add(c24D)
+		if c24Limit > 0 && r.consecutive >= c24Limit && !r.forgotten {
+			// the failure that reaches the limit starts a lockout; so does every
+			// further consecutive failure made strictly after the previous lockout
+			// ran out (at the very instant it runs out the statement is not specific)
+			if !r.locked || t0.After(r.lockHi) {
+				r.locked, r.lockLo, r.lockHi = true, t0.Add(c24D), t1.Add(c24D)
+			}
 		}
 		// attempts on one user never touch the other one's record
 		o := users[0]
